@@ -45,6 +45,8 @@ type c20Config struct {
 	PreCancel bool `json:"cancel_before_start"`
 	Deadline  bool `json:"deadline"` // the context ends by an expired deadline instead of an explicit cancel
 	Prealloc  int  `json:"prealloc"` // > 0: Experiment.Trials pre-allocated with Runs+Prealloc entries (a re-used experiment)
+	Stale     bool `json:"stale"`    // the pre-allocated entries hold the results of an earlier execution (two generations each, the first solved)
+	Nested    bool `json:"nested"`   // the options travel in a context whose parent context already carries other options
 }
 
 // endableCtx is a context the harness can end at a chosen moment either as cancelled or as
@@ -83,6 +85,8 @@ type c20Harness struct {
 	seen    []c20Seen
 	startK  string
 	trialOf map[*experiment.Trial]bool
+	curGens int    // generations notified in the current trial
+	obsMsg  string // first discrepancy between a trial handed to the observer and the trial being run
 }
 
 func (h *c20Harness) GenerationEvaluate(ctx context.Context, pop *genetics.Population, g *experiment.Generation) error {
@@ -121,12 +125,29 @@ func (h *c20Harness) GenerationEvaluate(ctx context.Context, pop *genetics.Popul
 
 func (h *c20Harness) TrialRunStarted(t *experiment.Trial) {
 	h.events = append(h.events, fmt.Sprintf("start(%d)", t.Id))
+	h.curGens = 0
+	if len(t.Generations) != 0 && h.obsMsg == "" {
+		h.obsMsg = fmt.Sprintf("the trial handed to TrialRunStarted(%d) already holds %d generations", t.Id, len(t.Generations))
+	}
 }
 func (h *c20Harness) TrialRunFinished(t *experiment.Trial) {
 	h.events = append(h.events, fmt.Sprintf("finish(%d)", t.Id))
+	if h.obsMsg == "" {
+		if len(t.Generations) != h.curGens {
+			h.obsMsg = fmt.Sprintf("the trial handed to TrialRunFinished(%d) holds %d generations, %d were evaluated in it", t.Id, len(t.Generations), h.curGens)
+		} else {
+			for i, g := range t.Generations {
+				if g.Id != i {
+					h.obsMsg = fmt.Sprintf("the trial handed to TrialRunFinished(%d) lists generation id %d at position %d", t.Id, g.Id, i)
+					break
+				}
+			}
+		}
+	}
 }
 func (h *c20Harness) EpochEvaluated(t *experiment.Trial, g *experiment.Generation) {
 	h.events = append(h.events, fmt.Sprintf("epoch(%d,%d)", t.Id, g.Id))
+	h.curGens++
 }
 
 type c20Expect struct {
@@ -205,7 +226,11 @@ func c20Run(cfg c20Config, script []int) (msg string, consumed []int, events []s
 	if cfg.Deadline {
 		endErr = context.DeadlineExceeded
 	}
-	ectx := &endableCtx{Context: opts.NeatContext(), done: make(chan struct{}), err: endErr}
+	var base context.Context = opts.NeatContext()
+	if cfg.Nested {
+		base = nestedCtx(opts)
+	}
+	ectx := &endableCtx{Context: base, done: make(chan struct{}), err: endErr}
 	var ctx context.Context = ectx
 	ended := false
 	cancel := func() {
@@ -222,6 +247,15 @@ func c20Run(cfg c20Config, script []int) (msg string, consumed []int, events []s
 	e := experiment.Experiment{Id: 1}
 	if cfg.Prealloc > 0 {
 		e.Trials = make(experiment.Trials, cfg.Runs+cfg.Prealloc)
+		if cfg.Stale {
+			for i := range e.Trials {
+				e.Trials[i] = experiment.Trial{Id: 100 + i, Generations: experiment.Generations{{Id: 0, TrialId: 100 + i, Solved: true}, {Id: 1, TrialId: 100 + i}}}
+			}
+		}
+	}
+	staleLen := 0
+	if cfg.Stale {
+		staleLen = 2
 	}
 	var obs experiment.TrialRunObserver
 	if cfg.Observer {
@@ -291,6 +325,9 @@ func c20Run(cfg c20Config, script []int) (msg string, consumed []int, events []s
 			}
 		}
 	}
+	if h.obsMsg != "" {
+		return h.obsMsg, consumed, events
+	}
 	// recorded trials
 	if len(e.Trials) < len(trials) {
 		return fmt.Sprintf("%d trials recorded, %d completed", len(e.Trials), len(trials)), consumed, events
@@ -299,8 +336,8 @@ func c20Run(cfg c20Config, script []int) (msg string, consumed []int, events []s
 		return fmt.Sprintf("%d trial records, %d configured (+%d pre-allocated)", len(e.Trials), cfg.Runs, cfg.Prealloc), consumed, events
 	}
 	for i := len(trials); i < len(e.Trials) && !aborted; i++ {
-		if len(e.Trials[i].Generations) != 0 {
-			return fmt.Sprintf("trial record #%d beyond the %d configured trials was filled (%d generations recorded)", i, cfg.Runs, len(e.Trials[i].Generations)), consumed, events
+		if len(e.Trials[i].Generations) != staleLen {
+			return fmt.Sprintf("trial record #%d beyond the %d configured trials was touched (%d generations recorded, %d before the run)", i, cfg.Runs, len(e.Trials[i].Generations), staleLen), consumed, events
 		}
 	}
 	for i, t := range trials {
@@ -367,7 +404,11 @@ func runC20(c *Ctx) {
 					for _, pre := range []bool{false, true} {
 						cfgs = append(cfgs, c20Config{Runs: r, Gens: g, Observer: obs, Parallel: par, PreCancel: pre})
 						// the same with an expired deadline instead of a cancel, and on a re-used experiment
-						cfgs = append(cfgs, c20Config{Runs: r, Gens: g, Observer: obs, Parallel: par, PreCancel: pre, Deadline: true, Prealloc: 2})
+						cfgs = append(cfgs, c20Config{Runs: r, Gens: g, Observer: obs, Parallel: par, PreCancel: pre, Deadline: true, Prealloc: 2, Nested: true})
+						// on an experiment that still holds the results of an earlier execution
+						if !pre {
+							cfgs = append(cfgs, c20Config{Runs: r, Gens: g, Observer: obs, Parallel: par, Prealloc: 1, Stale: true})
+						}
 					}
 				}
 			}
@@ -408,7 +449,7 @@ func runC20(c *Ctx) {
 				} else if strings.Contains(msg, "error") || strings.Contains(msg, "returned") {
 					clause = "error-result"
 				}
-				c.ViolateOrd("C20/"+clause, int64(len(consumed)*100+cfg.Runs*10+cfg.Gens), fmt.Sprintf("%s [runs=%d generations=%d observer=%v parallel=%v ended-before-start=%v deadline=%v prealloc=%d, evaluator answers %v]", msg, cfg.Runs, cfg.Gens, cfg.Observer, cfg.Parallel, cfg.PreCancel, cfg.Deadline, cfg.Prealloc, names),
+				c.ViolateOrd("C20/"+clause, int64(len(consumed)*100+cfg.Runs*10+cfg.Gens), fmt.Sprintf("%s [runs=%d generations=%d observer=%v parallel=%v ended-before-start=%v deadline=%v prealloc=%d stale=%v nested-context=%v, evaluator answers %v]", msg, cfg.Runs, cfg.Gens, cfg.Observer, cfg.Parallel, cfg.PreCancel, cfg.Deadline, cfg.Prealloc, cfg.Stale, cfg.Nested, names),
 					&Replay{Scenario: "experiment", Params: params, Answers: consumed, Clause: msg})
 			}
 			for i := len(prefix); i < len(consumed); i++ {
